@@ -26,7 +26,10 @@ BUDGET = {"quick": {"workers": 8, "examples": 120, "seconds": 50},
           "thorough": {"workers": 16, "examples": 2000, "seconds": 600}}
 
 ALGOS = ["dpop", "syncbb", "mgm", "mgm2", "dsa", "adsa", "dsatuto", "dba", "gdba", "maxsum", "amaxsum"]
-ODD_DOMS = [["R", "G"], ["R", "G", "B"], [101, 102, 103], [100, 200], ["only"], [555]]
+ODD_DOMS = [["R", "G"], ["R", "G", "B"], [101, 102, 103], [100, 200], ["only"], [555],
+            # values of several types in one domain (anything that puts tied values into an array or sorts them
+            # must give back the very objects of the domain)
+            [1, "a", 2], ["x", 7], [1, "a", 2], ["x", 7], [2.5, "b", 3]]
 
 
 @st.composite
@@ -75,10 +78,37 @@ def cases(draw, algos=ALGOS):
             "wire": draw(st.integers(0, 2)) == 0}
 
 
-def case_strategy(tier):
+@st.composite
+def tie_cases(draw):
+    """MGM2 / MGM / DSA on DCOPs full of ties where each variable has a domain of its own."""
+    algo = draw(st.sampled_from(["mgm2", "mgm2", "mgm2", "mgm", "dsa", "dsatuto", "dsatuto"]))
+    desc = draw(gen.tie_dcops())
+    if algo == "dsatuto":
+        desc["objective"] = "min"
+    params = {"stop_cycle": draw(st.integers(4, 12))} if algo != "dsatuto" else {}
+    if algo == "mgm2":
+        params["threshold"] = draw(st.sampled_from([0.3, 0.5, 0.7]))
+        params["favor"] = draw(st.sampled_from(["unilateral", "no", "coordinated"]))
+    return {"algo": algo, "params": params, "dcop": desc, "schedule": draw(gen.schedules(150)),
+            "seed": draw(st.integers(0, 10000)), "wire": draw(st.integers(0, 3)) == 0}
+
+
+SHARDED = True
+TIE_SHARDS = (6, 7)   # these shards only run the (cheap) tie cases, many more of them
+
+
+def shard_budget(tier, shard):
+    return {"examples": 900 if tier == "quick" else 8000} if shard in TIE_SHARDS else {}
+
+
+def case_strategy(tier, shard=0):
     import os
     only = os.environ.get("VF_ALGOS")
-    return cases(tuple(only.split(","))) if only else cases()
+    if only:
+        return cases(tuple(only.split(",")))
+    if shard in TIE_SHARDS:
+        return tie_cases()
+    return st.one_of(cases(), cases(), cases(), tie_cases())
 
 
 def run_case(case):
